@@ -77,6 +77,7 @@ class Ctl:
 
 
 CTL = None
+DIE_CODES = (-9, 0, 1)
 
 
 def _queue_by_index(i):
@@ -95,6 +96,15 @@ class FakeProcess:
         self.alive = False
         self.pid = None
         self.started = False
+        self._code = 0
+
+    @property
+    def exitcode(self):
+        """like multiprocessing.Process.exitcode: None until the process has ended. A dying worker ends as
+        one of: killed by SIGKILL (-9), a silent exit(0), exit(1) - chosen by the task's number."""
+        if not self.started or self.alive:
+            return None
+        return self._code
 
     def start(self):
         ctl = CTL
@@ -110,6 +120,7 @@ class FakeProcess:
         ctl.order.append(fid)
         ctl.events.append(('B', getattr(task, 'k', None), sum(1 for q in ctl.procs.values() if q.alive)))
         if task is not None and getattr(task, 'k', None) in ctl.die:
+            self._code = DIE_CODES[task.k % len(DIE_CODES)]
             return  # never runs, never reports
         r, w = os.pipe()
         pid = os.fork()
@@ -146,6 +157,8 @@ class FakeProcess:
         return self.alive
 
     def terminate(self):
+        if self.alive:
+            self._code = -15
         self.alive = False
         fid = self.kwargs['future_id']
         CTL.parked.pop(fid, None)
